@@ -30,6 +30,7 @@
 -/
 import ASV.Proofs.LocOrder
 import ASV.Proofs.LocString
+import ASV.Proofs.LocStringFuzzy
 import ASV.Proofs.LocMergeAdjacent
 import ASV.Proofs.LocExtendAreaRev
 import ASV.Proofs.LocExtendMulti
@@ -453,6 +454,24 @@ theorem string_model_is_join_instance (l : Loc) (s : List Char) :
 example : locFromCharsOp (opLocChars "order".toList (.compound [⟨0, 12, .rev⟩, ⟨90, 100, .rev⟩]))
     = some (some "order".toList, .compound [⟨0, 12, .rev⟩, ⟨90, 100, .rev⟩]) := by
   apply string_roundtrip_with_operator <;> simp [Loc.parts]
+
+/-- the textual round trip with Biopython's fuzzy positions: a start or an end written as `<n` (`BeforePosition`) or
+    `>n` (`AfterPosition`) — at either place, in a simple location or in any part of a multi-part one — is read back
+    with the same value AND the same class, next to the same strand and operator.  (The class is decided by the
+    marker alone; `UnknownPosition()` is outside the model.) -/
+theorem string_roundtrip_fuzzy (op : List Char) (hop : ∀ c ∈ op, c ≠ '{') (l : FLoc) (hne : l.parts ≠ []) :
+    flocFromChars (flocChars op l) = some (l.opOf op, l) :=
+  flocFromChars_flocChars op hop l hne
+
+/-- on exact positions the fuzzy textual form is the plain one of `string_roundtrip_with_operator` -/
+theorem string_fuzzy_extends_exact (op : List Char) (l : Loc) : flocChars op (.ofLoc l) = opLocChars op l :=
+  flocChars_ofLoc op l
+
+/-- an `AfterPosition` start and a `BeforePosition` end (the unusual way round) keep their classes -/
+example : flocFromChars "[>12:<20](+)".toList
+    = some (none, .simple ⟨⟨.after, 12⟩, ⟨.before, 20⟩, .fwd⟩) := by
+  have := string_roundtrip_fuzzy [] (by simp) (.simple ⟨⟨.after, 12⟩, ⟨.before, 20⟩, .fwd⟩) (by simp [FLoc.parts])
+  exact this
 
 /-! ### non-vacuity -/
 example : (Loc.compound [⟨90, 100, .fwd⟩, ⟨0, 10, .fwd⟩]).OK 100 ∧ (Loc.simple ⟨20, 30, .rev⟩).OK 100 := by
